@@ -77,6 +77,23 @@ TIERS = {
                  "xbudget_s": float(os.environ.get("VERIF_C10_XBUDGET_S", "420")), "xwipe": _XW},
 }
 NO_RUN_OPS = ("wipe", "rmout")  # harness actions: no pavexc process
+# Perturbations of the files pavexc wrote (harness actions, no pavexc process). Every one of them changes the BYTES of an
+# output file and nothing else about the project, so afterwards `--check` must exit 1 and a normal run must restore the
+# canonical bytes. The kinds are the edits a checkout, an editor or a formatter makes to a committed generated crate.
+PERTURB = {
+    "crlf": "src/lib.rs: every LF becomes CRLF (a checkout with core.autocrlf)",
+    "nonl": "src/lib.rs: the final newline is removed",
+    "cmt": "src/lib.rs: a `//` comment line is appended (token-equivalent Rust)",
+    "blank": "src/lib.rs: a blank line is inserted after the first line (token-equivalent Rust)",
+    "tomlcmt": "generated Cargo.toml: a `#` comment line is appended (equivalent TOML)",
+    "diagnl": "diagnostics file: the final newline is removed",
+    "flip": "src/lib.rs: one ASCII letter inside the last line that has one changes case (same size, last partial block)",
+}
+PT_OPS = [f"pt:{k}" for k in PERTURB]
+
+
+def is_pt(op):
+    return op.startswith("pt:")
 FILES = ("manifest", "lib", "diag", "root")
 CHECKED_BY_WRITER = ("manifest", "lib", "root")  # the files `--check` compares (AppWriter)
 
@@ -264,6 +281,42 @@ class Project:
             os.remove(self.diag)
         with open(self.root_manifest, "w") as f:
             f.write(self.ROOT_TOML)
+
+    def perturb(self, kind):
+        """Edit an output file in place (see PERTURB). Returns the name of the file whose bytes changed, or None."""
+        fl = self.files()
+        which = {"tomlcmt": "manifest", "diagnl": "diag"}.get(kind, "lib")
+        path = fl[which]
+        try:
+            with open(path, "rb") as f:
+                data = f.read()
+        except OSError:
+            return None
+        if kind == "crlf":
+            new = data.replace(b"\r\n", b"\n").replace(b"\n", b"\r\n")
+        elif kind in ("nonl", "diagnl"):
+            new = data[:-1] if data.endswith(b"\n") else data
+        elif kind == "cmt":
+            new = data + (b"" if data.endswith(b"\n") else b"\n") + b"// reviewed\n"
+        elif kind == "blank":
+            i = data.find(b"\n")
+            new = data[:i + 1] + b"\n" + data[i + 1:] if i >= 0 else data
+        elif kind == "tomlcmt":
+            new = data + (b"" if data.endswith(b"\n") else b"\n") + b"# reviewed\n"
+        elif kind == "flip":
+            new = data
+            for i in range(len(data) - 1, -1, -1):
+                c = data[i:i + 1]
+                if c.isalpha() and c.isascii():
+                    new = data[:i] + c.swapcase() + data[i + 1:]
+                    break
+        else:
+            raise L.MachineryError(f"unknown perturbation {kind}")
+        if new == data:
+            return None
+        with open(path, "wb") as f:
+            f.write(new)
+        return which
 
     def snapshot(self):
         """{file: [sha256 | None, mtime_ns | None]} for the four observed files + stray files in the workspace."""
@@ -1110,6 +1163,24 @@ def xprog_cases(tier, cfg, h0=0):
     return cases
 
 
+def perturbation_histories(tier):
+    """Histories in which the files pavexc wrote are edited in place between runs."""
+    out = []
+    if tier == "quick":
+        for pt in PT_OPS:
+            out += [[pt, "check"], [pt, "checkdiag"], [pt, "gen"], [pt, "gen", "check"]]
+        return out
+    alphabet = PT_OPS + ["gen", "check", "checkdiag"]
+    for n in (2, 3):
+        for ops in itertools.product(alphabet, repeat=n):
+            if is_pt(ops[-1]):
+                continue  # no pavexc process after the last operation: observationally the prefix
+            if not any(is_pt(o) for o in ops):
+                continue  # enumerated by the plain histories
+            out.append(list(ops))
+    return out
+
+
 def has_wipe(case):
     return any(o.split(":")[0] == "wipe" for o in case["ops"])
 
@@ -1189,6 +1260,8 @@ def execute_case(arena, case, restore=True):
         elif op == "rmout":
             arena.p.reset_outputs()
             steps.append({"op": "rmout"})
+        elif is_pt(op):
+            steps.append({"op": op, "changed": arena.p.perturb(op[3:])})
         elif op == "check":
             steps.append(do_run(arena.p, "check", j, state["bp"], check=True, diagnostics=False))
         elif op == "checkdiag":
@@ -1325,6 +1398,22 @@ def _observe(tier, cfg):
                         "equivalent_to_their_prefix": n_equiv, "cases": len(cases), "completed": len(recs), "not_run": left,
                         "wall_s": round(time.time() - t0, 1)})
         L.log(f"c10: histories of length {n} over {len(alphabet)} ops: {len(recs)}/{len(cases)} in {time.time() - t0:.1f}s")
+    # perturbation histories: the outputs are edited in place between runs (PERTURB)
+    t0 = time.time()
+    pcases = []
+    for ops in perturbation_histories(tier):
+        pcases.append(history_case(cfg, specs, h, ops, rot))
+        h += 1
+    if deadline is not None and time.time() > deadline + 240:
+        recs, left = [], len(pcases)
+    else:
+        recs, left = run_cases(arenas, pcases, cfg["wipe_arenas"], (deadline + 240) if deadline is not None else None)
+    records += recs
+    batches.append({"batch": "perturbation-histories", "alphabet": PT_OPS + ["gen", "check", "checkdiag"], "cases": len(pcases),
+                    "completed": len(recs), "not_run": left, "wall_s": round(time.time() - t0, 1),
+                    "shapes": "quick: [pt, check], [pt, checkdiag], [pt, gen], [pt, gen, check] for every perturbation; thorough: "
+                              "every sequence of length <= 3 over the alphabet that contains a perturbation followed by a run"})
+    L.log(f"c10: perturbation histories {len(recs)}/{len(pcases)} in {time.time() - t0:.1f}s")
     for a in arenas:
         a.drop_home()  # every case restores the cache from the snapshot: nothing to keep
         if a.k >= TIERS["quick"]["wipe_arenas"]:
@@ -1448,6 +1537,9 @@ def evaluate(rec, canon, hist=None):
         op = st["op"]
         if op in ("wipe", "rmout"):
             hist[f"{op}:done"] += 1
+            continue
+        if is_pt(op):
+            hist[f"{op}:{'changed-' + st['changed'] if st.get('changed') else 'no-effect'}"] += 1
             continue
         where = describe(case, j, st)
         if st.get("timed_out"):
@@ -1607,7 +1699,12 @@ RULE = (
     "(lib.rs < 8 KiB; > 8 KiB with the difference inside the last partial 8 KiB block; > 8 KiB with the difference in a full "
     "block; generated Cargo.toml and diagnostics of equal size) are demanded from the measurement. The cross-program histories run "
     "with the warm cache (every source variant was documented by the baseline); VERIF_C10_XWIPE=1 adds [gen A, wipe, gen B] for the "
-    "families whose siblings differ in their sources.")
+    "families whose siblings differ in their sources. "
+    "PERTURBATION HISTORIES: between runs the harness edits the files pavexc wrote, the way a checkout, an editor or a formatter "
+    "would (" + "; ".join(f"{k} = {v}" for k, v in PERTURB.items()) + "); quick = [pt, --check], [pt, --check --diagnostics], "
+    "[pt, gen], [pt, gen, --check] for every perturbation, thorough = every sequence of length <= 3 over {perturbations, gen, "
+    "--check, --check --diagnostics} that contains a perturbation followed by a run; same oracle (`--check` exits 1 exactly "
+    "when a covered file differs from the canonical bytes and never writes; `gen` restores the canonical bytes).")
 
 
 def oracle_c10(obs, rep, tier):
